@@ -11,10 +11,11 @@ import gaddlemaps
 
 PROPERTY = "C07"
 LEVEL = "exploration"
-RULE = ("(trees) every labelled tree with 2..6 (quick) / 2..7 (thorough) vertices from Pruefer sequences x every moved "
+RULE = ("(trees) every labelled tree with 1..6 (quick) / 1..7 (thorough) vertices from Pruefer sequences x every moved "
         "atom, generic coordinates and displacement from numpy default_rng([VERIF_SEED, index]), bond table measured "
         "from the geometry and a second table of random lengths; (random) Hypothesis trees / chains / stars / cyclic "
-        "graphs up to 60 atoms with arbitrary displacement; (displ) find_atom_random_displ for atoms with 1, 2, >=3 "
+        "graphs and forests (moved atom possibly without any bond) of 1..60 atoms with arbitrary displacement, coordinate "
+        "array in several memory layouts; (displ) find_atom_random_displ for atoms with 1, 2, >=3 "
         "neighbours. Non-trivial = the re-projection propagates at least two bonds away from the moved atom "
         "(displ: the molecule is not axis-aligned). Distinct = sha1 of the case JSON.")
 ASSUMPTIONS = [
@@ -63,8 +64,8 @@ def enumerate_trees(tier, seed):
 
     def it():
         idx = 0
-        for n in range(2, nmax + 1):
-            for edges in gen.prufer_trees(n):
+        for n in range(1, nmax + 1):
+            for edges in (gen.prufer_trees(n) if n > 1 else [[]]):
                 for atom in range(n):
                     for table in ("measured", "random"):
                         yield (lambda n=n, edges=edges, atom=atom, table=table, idx=idx:
@@ -75,19 +76,20 @@ def enumerate_trees(tier, seed):
 
 @st.composite
 def random_case(draw):
-    n = draw(st.integers(2, 60))
-    kind = draw(st.sampled_from(["tree", "tree", "chain", "star", "cyclic"]))
-    edges = draw(gen.graph_edges(n, kind))
+    n = draw(st.integers(1, 60))
+    kind = draw(st.sampled_from(["tree", "tree", "chain", "star", "cyclic", "forest"]))
+    edges = draw(gen.graph_edges(n, kind)) if n > 1 else []
     atom = draw(st.integers(0, n - 1))
     rng = np.random.default_rng(draw(gen.SEEDS))
     case = make_case(n, edges, atom, rng, draw(st.sampled_from(["measured", "random"])))
     case["graph"] = kind
+    case["mem"] = draw(st.sampled_from(gen.ARRAY_LAYOUTS))
     return case
 
 
 def check_move(case):
     n, edges, atom = case["n"], [tuple(e) for e in case["edges"]], case["atom"]
-    pos = np.array(case["pos"], float)
+    pos = gen.as_layout(case["pos"], case.get("mem", "C"))
     before = pos.copy()
     displ = np.array(case["displ"], float)
     displ_before = displ.copy()
@@ -131,8 +133,8 @@ def check_move(case):
             raise PropertyViolation("unconnected-untouched", "atom %d is not bonded to the moved part but moved" % v)
     depth = depth_from(n, edges, atom)
     return {"nontrivial": max(depth.values()) >= 2,
-            "classes": ["table:" + case["table"], "tree" if is_tree else "cyclic",
-                        "depth:%s" % min(max(depth.values()), 4)]}
+            "classes": ["table:" + case["table"], "tree" if is_tree else ("cyclic" if len(edges) >= n else "forest"),
+                        "depth:%s" % min(max(depth.values()), 4), "mem:" + case.get("mem", "C")]}
 
 
 # ------------------------------------------------------------------ random displacement
@@ -191,7 +193,7 @@ def check_displ(case):
 
 SUBCHECKS = [
     Sub("trees", check_move, enumerate=enumerate_trees,
-        note="all labelled trees 2..6 (quick) / 2..7 (thorough) vertices x every moved atom x two bond tables"),
+        note="all labelled trees 1..6 (quick) / 1..7 (thorough) vertices x every moved atom x two bond tables"),
     Sub("random", check_move, strategy=lambda tier: random_case(), quick=2000, thorough=40000,
         min_share={"cyclic": 0.1}),
     Sub("displ", check_displ, strategy=lambda tier: displ_case(), quick=2000, thorough=40000,
